@@ -47,9 +47,11 @@ def valTok (fmt : Bytes → Bytes) : Val → Bytes
 
 /-- tokens the writer emits for the values of a record; `dc` = `default_count`, `any` =
 an explicit value has been written in this record (`row_count > 0` at `end_record`).
-`flush`: what `end_record` does with defaults still pending — the translator reads it off
-DeckOutput.cpp (`Gen.RawConsts.outFlushPendingDefaults`): `false` = dropped, `true` =
-written as a final `n*` provided the record holds an explicit value. -/
+`flush`: are defaults still pending at the end of the record written as a final `n*` (provided
+the record holds an explicit value) or dropped.  Which one the code does depends on its shape
+(`Gen.RawConsts.outFlushShape`, read off DeckOutput.cpp / DeckItem.cpp by the translator) and,
+since 14c7867b0, on the record: `flushOf shape r` (written only behind an item holding several
+values).  The theorems hold for both values. -/
 def emitToks (fmt : Bytes → Bytes) (flush : Bool) : Bool → Nat → Vals → List Bytes
   | any, dc, [] => if flush ∧ any ∧ dc ≠ 0 then [starTok dc] else []
   | any, dc, (v, st) :: r =>
@@ -109,22 +111,53 @@ structure OutState where
   rc : Nat
   deriving DecidableEq, Repr
 
-/-- `DeckRecord::write`: `start_record`, the items, `end_record`. -/
-def writeRecordM (fmt : Bytes → Bytes) (flush split : Bool) (r : List Vals) : Bytes × OutState :=
-  let w := writeValsM fmt split true 0 0 r.flatten
+/-- `DeckOutput::flush_defaults` (14c7867b0): the pending `n*` is written iff the record holds an
+explicit value (`row_count > 0`). -/
+def flushDefaultsM (split recordOn : Bool) (dc rc : Nat) : Bytes × Nat × Nat :=
+  if 0 < dc ∧ 0 < rc then ((writeSep split recordOn rc).1 ++ starTok dc, 0, (writeSep split recordOn rc).2 + 1)
+  else ([], dc, rc)
+
+/-- `DeckRecord::write_data`: `DeckItem::write` for every item; with `itemFlush` (shape 2 of the
+code, 14c7867b0) `write_vector` calls `flush_defaults` behind an item holding several values. -/
+def writeItemsM (fmt : Bytes → Bytes) (split recordOn itemFlush : Bool) : Nat → Nat → List Vals → Bytes × Nat × Nat
+  | dc, rc, [] => ([], dc, rc)
+  | dc, rc, it :: rest =>
+    let w := writeValsM fmt split recordOn dc rc it
+    let f : Bytes × Nat × Nat :=
+      if itemFlush ∧ it.length > 1 then flushDefaultsM split recordOn w.2.1 w.2.2 else ([], w.2.1, w.2.2)
+    let r := writeItemsM fmt split recordOn itemFlush f.2.1 f.2.2 rest
+    (w.1 ++ f.1 ++ r.1, r.2)
+
+/-- does the last item of the record hold several values? -/
+def lastMulti (r : List Vals) : Bool :=
+  match r.getLast? with
+  | some it => decide (it.length > 1)
+  | none => false
+
+/-- the `flush` parameter of `emitToks` that describes the code of shape `shape`
+(`Gen.RawConsts.outFlushShape`: 0 the original code, 1 = 452487d0e, 2 = 14c7867b0) on the
+record `r`, when only its last item may hold several values. -/
+def flushOf (shape : Nat) (r : List Vals) : Bool :=
+  if shape = 0 then false else if shape = 1 then true else lastMulti r
+
+/-- `DeckRecord::write`: `start_record`, the items, `end_record`, for the three shapes of the
+code. -/
+def writeRecordM (fmt : Bytes → Bytes) (shape : Nat) (split : Bool) (r : List Vals) : Bytes × OutState :=
+  let w := writeItemsM fmt split true (decide (2 ≤ shape)) 0 0 r
   let dc := w.2.1
   let rc := w.2.2
-  if flush then
+  if shape = 0 then (w.1 ++ [32, 47, 10], ⟨dc, rc⟩)
+  else if shape = 1 then
     if 0 < dc ∧ 0 < rc then
       ((w.1 ++ (writeSep split true rc).1 ++ starTok dc) ++ [32, 47, 10], ⟨0, (writeSep split true rc).2 + 1⟩)
     else (w.1 ++ [32, 47, 10], ⟨0, rc⟩)
-  else (w.1 ++ [32, 47, 10], ⟨dc, rc⟩)
+  else (w.1 ++ [32, 47, 10], ⟨0, rc⟩)
 
-def writeRecordsM (fmt : Bytes → Bytes) (flush split : Bool) : OutState → List (List Vals) → Bytes × OutState
+def writeRecordsM (fmt : Bytes → Bytes) (shape : Nat) (split : Bool) : OutState → List (List Vals) → Bytes × OutState
   | st, [] => ([], st)
   | _, r :: rs =>
-    let a := writeRecordM fmt flush split r
-    let b := writeRecordsM fmt flush split a.2 rs
+    let a := writeRecordM fmt shape split r
+    let b := writeRecordsM fmt shape split a.2 rs
     (a.1 ++ b.1, b.2)
 
 /-- one keyword as the writer sees it. -/
@@ -140,23 +173,20 @@ def splitNames : List Bytes :=
 def titleName : Bytes := [84, 73, 84, 76, 69]
 
 /-- `DeckKeyword::write` (with `write_TITLE`). -/
-def writeKeywordM (fmt : Bytes → Bytes) (flush : Bool) (st : OutState) (k : KwOut) : Bytes × OutState :=
+def writeKeywordM (fmt : Bytes → Bytes) (shape : Nat) (st : OutState) (k : KwOut) : Bytes × OutState :=
   if k.name = titleName then
-    let vals := match k.records with
-      | r :: _ => r.flatten
-      | [] => []
-    let w := writeValsM fmt false false st.dc st.rc vals
+    let w := writeItemsM fmt false false (decide (2 ≤ shape)) st.dc st.rc (k.records.headD [])
     (k.name ++ [10] ++ [32, 32] ++ w.1 ++ [10], ⟨w.2.1, w.2.2⟩)
   else
     let split := k.dataKw || splitNames.contains k.name
-    let w := writeRecordsM fmt flush split st k.records
+    let w := writeRecordsM fmt shape split st k.records
     (k.name ++ [10] ++ w.1 ++ (if k.slashTerm then [47, 10] else []), w.2)
 
 /-- `Deck::write` / `operator<<(std::ostream&, const Deck&)`. -/
-def writeDeckM (fmt : Bytes → Bytes) (flush : Bool) : OutState → List KwOut → Bytes
+def writeDeckM (fmt : Bytes → Bytes) (shape : Nat) : OutState → List KwOut → Bytes
   | _, [] => []
   | st, k :: ks =>
-    let a := writeKeywordM fmt flush st k
-    a.1 ++ writeDeckM fmt flush a.2 ks
+    let a := writeKeywordM fmt shape st k
+    a.1 ++ writeDeckM fmt shape a.2 ks
 
 end OpmVerif.DeckWrite
